@@ -322,8 +322,10 @@ Section Walker.
     match l with
     | [] => []
     | t :: rest =>
-        (if negb (nonempty (children "parts" t)) && (Nat.ltb pos nassign || names_variable base words pos nassign)
-         then rawscan c (attr_d "value" t) else []) ++
+        (if Nat.ltb pos nassign || names_variable base words pos nassign
+         then (if negb (nonempty (children "parts" t)) then rawscan c (attr_d "value" t)
+               else if has_inert_opener (attr_d "value" t) then [Ask] else [])
+         else []) ++
         name_scans c base words nassign (S pos) rest
     end.
 
@@ -376,7 +378,8 @@ Section Walker.
       let parts := lbl "parts" kr in
       text_guards (nonempty parts) scan (sattr "value") self ++
       flat_map (fun p => r_exp (snd p) c) parts ++
-      (if scan && negb (nonempty parts) then rawscan c (sattr "value") else []) in
+      (if scan then (if negb (nonempty parts) then rawscan c (sattr "value")
+                     else if has_inert_opener (sattr "value") then [Ask] else []) else []) in
     (* --- _analyze_expansion --- *)
     let exp : ctx -> list verdict := fun c =>
       if mem_str k SUBST_KINDS then [need_node (one "command" kr) c]
